@@ -5,7 +5,7 @@ import re
 from ..engine import prop, rule
 from ..facts import (op_local, op_place, is_place, backward_slice, copy_chain_sources, IDENTITY_CALLS,
                      switch_on, bool_edges, proj_names, field_path)
-from .. import lib
+from .. import lib, flags
 
 prop('C13',
      explanation=(
@@ -1014,7 +1014,7 @@ def count_flows_out(F, body, c):
                 cc = body.call_at(b)
                 if any(is_place(a) and op_local(a) in S for a in cc.args):
                     if cc.is_(r'^std::ops::Try::branch$', r'^std::result::Result::<T, E>::(map|map_err|and_then)$',
-                              r'^std::ops::(Add|AddAssign)::', r'^std::convert::'):
+                              r'^std::ops::(Add|AddAssign)::', r'^std::convert::', r'^std::iter::Iterator::(fold|try_fold)$'):
                         if cc.is_(r'AddAssign'):
                             return True
                         if cc.dest['l'] not in S:
@@ -1343,3 +1343,148 @@ def read_loop_keeps_every_element(ctx):
                           'read (the insertion at line %d is conditional): well-formed elements are dropped on reload'
                           % (name, c.ln, adds[0].ln), 'the insertion is on every path through the loop body', fb.where(c.ln))
     ctx.note('%d reading loops with an insertion' % n)
+
+
+def _chain_nonempty(F, fb, op, depth=0):
+    """Can the LinkedList held by operand `op` at its use be shown non-empty?  (ok, why-not)"""
+    if depth > 4 or not is_place(op):
+        return False, 'not a place'
+    srcs = copy_chain_sources(fb, op, through_calls=(r'^std::clone::Clone::clone$',) + tuple(IDENTITY_CALLS))
+    if not srcs:
+        return False, 'unknown origin'
+    for s in srcs:
+        if s[0] == 'param':
+            # a chain that already sits in a key (moved or cloned along): non-empty by the invariant this rule maintains
+            continue
+        if s[0] != 'call':
+            return False, 'built from %s' % s[0]
+        c = s[1]
+        if c.is_(r'^std::convert::From::from$', r'^std::iter::FromIterator::from_iter$') and c.args:
+            ty = c.body.local_ty(op_local(c.args[0])) if is_place(c.args[0]) else ''
+            m = re.match(r'^\[.*; (\d+)\]$', ty)
+            if m and int(m.group(1)) >= 1:
+                continue
+            return False, 'built by %s from a value of type `%s`, which may be empty' % (c.name, ty[:60])
+        if c.is_(r'LinkedList::<[^>]*>::new$', r'^std::default::Default::default$'):
+            root = c.dest['l']
+            body = c.body
+            pushes = []
+            for p in body.calls(r'LinkedList::<[^>]*>::(push_back|push_front)$'):
+                if p.args and is_place(p.args[0]):
+                    for r in copy_chain_sources(body, p.args[0], through_calls=tuple(IDENTITY_CALLS)):
+                        if (r[0] == 'call' and r[1] is c) or (r[0] == 'local' and r[1] == root):
+                            pushes.append(p)
+                    l, d = lib.resolve_copy(body, op_local(p.args[0]))
+                    if d is not None and d.kind == 'assign' and d.rv['k'] == 'ref' and d.rv['pl']['l'] == root and p not in pushes:
+                        pushes.append(p)
+            # where the chain is used
+            use_blocks = [b for b in sorted(body.live_blocks()) for st in body.stmts(b)
+                          if st['rv']['k'] == 'use' and is_place(st['rv']['a']) and op_place(st['rv']['a']) == {'l': root, 'p': []}
+                          and 'mv' in st['rv']['a']]
+            if not use_blocks:
+                use_blocks = body.return_blocks()
+            ok_all = True
+            for ub in use_blocks:
+                if any(body.block_dominates(p.b, ub) for p in pushes):
+                    continue
+                # filled by a loop over a master chain (non-empty), every non-leaving iteration of which pushes
+                filled = False
+                for nx in body.calls(r'^std::iter::Iterator::next$'):
+                    if flags.PAIR_TY not in (nx.self_ty or '') + nx.full:
+                        continue
+                    inloop = [p for p in pushes if nx.b in body.reach(p.b) and p.b in body.reach(nx.b)]
+                    if not inloop:
+                        continue
+                    somes = [t for (sb, t) in lib.present_edges(body, nx)]
+                    if somes and all(nx.b not in body.reach(s_, avoid_blocks=tuple(p.b for p in inloop)) for s_ in somes):
+                        filled = True
+                if not filled:
+                    ok_all = False
+            if ok_all:
+                continue
+            return False, 'starts empty (LinkedList::new) and can reach its use without a push'
+        # an element / chain taken out of an existing container
+        if c.is_(r'^std::iter::Iterator::next$', r'RevisionMap::<K, V>::(get|remove)$', r'RevisionVec::<K, T>::', r'^std::option::Option::<T>::unwrap'):
+            continue
+        return False, 'returned by %s' % c.name
+    return True, ''
+
+
+@rule('C13', 'chains-never-empty', configs=('default', 'p256'))
+def chains_never_empty(ctx):
+    """'deserialization gives back an equal object': the reader of a user key drops a right whose chain is empty
+    (`insert_new_chain`), and `sign` / the merge of `refresh` treat an empty chain as no right at all — so no user key that the
+    API hands out may hold an empty chain. Wherever chains are collected straight into a `RevisionVec` (the
+    `FromIterator<(K, LinkedList<T>)>` form, which does not filter), each chain is shown non-empty: it received a push on every
+    path, was filled by a loop over a master chain, was built from a non-empty array, or was taken as it is from a key."""
+    from .. import flags as _f
+    F = ctx.F
+    n = 0
+    for fb in F.fns() + [b for b in F.bodies.values() if b.kind == 'Closure']:
+        root = fb.root or fb.key
+        if root.startswith('data_struct::') or '::tests::' in root or root.startswith('test_utils'):
+            continue
+        for st_b in sorted(fb.live_blocks()):
+            for st in fb.stmts(st_b):
+                rv = st['rv']
+                if rv['k'] != 'agg' or not rv.get('tuple') or len(rv['ops']) != 2:
+                    continue
+                o1 = rv['ops'][1]
+                if not is_place(o1) or not fb.local_ty(op_local(o1)).startswith('std::collections::LinkedList<core::RightSecretKey'):
+                    continue
+                if 'Right' not in fb.local_ty(op_local(rv['ops'][0])) if is_place(rv['ops'][0]) else True:
+                    continue
+                n += 1
+                ok, why = _chain_nonempty(F, fb, o1)
+                ctx.check(ok, root, 'chain paired with a right is non-empty',
+                          '%s pairs a right with a chain of secrets that may be EMPTY (%s; line %d): such a key serializes a right '
+                          'that the reader drops — the deserialized key is a different key (other length, other signature input), and '
+                          'the right it "holds" opens nothing' % (fb.key, why, st['ln']), 'a push on every path / a non-empty source',
+                          fb.where(st['ln']))
+    ctx.floor(n, 2, '(right, chain) pairs built outside the container module')
+
+
+ARITH = ('Add', 'Sub', 'Mul', 'Div', 'Rem', 'Shl', 'Shr', 'AddWithOverflow', 'SubWithOverflow', 'MulWithOverflow')
+
+
+@rule('C13', 'length-guard-admits-what-was-written', configs=('default', 'p256'))
+def length_guard_admits_what_was_written(ctx):
+    """'deserialization gives back an equal object': the crate's own reader of length-prefixed byte vectors (`bytes_de::read_vec`)
+    refuses an input only when the announced length exceeds the bytes that remain. The bound it compares the announced length with
+    is the length of the remaining input — taken as it is, or less the width of the prefix OF THE ANNOUNCED LENGTH — and nothing
+    else: any other arithmetic on the bound (the width of some other number, a constant) rejects vectors the writer legitimately
+    produced (a 127-byte metadata field at the end of a header, say)."""
+    F = ctx.F
+    key = 'bytes_de::read_vec'
+    if key not in F:
+        ctx.bad('-', 'anchor-missing:bytes_de::read_vec', 'the length-checked vector reader is gone')
+        return
+    body = F.fn(key)
+    n = 0
+    for e in lib.error_exits(body):
+        if e.kind != 'explicit':
+            continue
+        for sb in sorted(body.live_blocks()):
+            t = body.term(sb)
+            if t['k'] != 'switch' or len(set(body.succs[sb])) < 2 or e.b not in body.reach(sb):
+                continue
+            if not any(body.edge_dominates((sb, s), e.b) for s in set(body.succs[sb])):
+                continue
+            n += 1
+            sl = backward_slice(body, [t['d']], follow_mutarg=False)
+            bad = []
+            for d in sl.rvs:
+                if d.kind != 'assign' or d.rv['k'] != 'bin' or d.rv['op'] not in ARITH:
+                    continue
+                ok = False
+                if d.rv['op'].startswith('Sub'):
+                    s2 = backward_slice(body, [d.rv['b']], follow_mutarg=False)
+                    wl = [c for c in s2.calls if c.is_(r'to_leb128_len$')]
+                    ok = bool(wl) and all(backward_slice(body, [c.args[0]], follow_mutarg=False).has_call(r'read_leb128_u64$') for c in wl)
+                if not ok:
+                    bad.append('%s (line %d)' % (d.rv['op'], body.stmts(d.b)[d.i]['ln']))
+            ctx.check(not bad, key, 'announced length compared with the remaining bytes themselves',
+                      'read_vec rejects an input on a bound that is not the number of remaining bytes (arithmetic on the way: %s): '
+                      'some vectors the writer produced are refused, and the object they belong to no longer deserializes' % bad[:2],
+                      'remaining.len() [- to_leb128_len(announced)] < announced', body.where(e.ln))
+    ctx.floor(n, 1, 'length guards of bytes_de::read_vec')
